@@ -499,15 +499,19 @@ where
 		let mut tx_f = File::open(tx_file)?;
 		let mut content = String::new();
 		tx_f.read_to_string(&mut content)?;
-		let tx_bin = util::from_hex(&content).unwrap();
-		Ok(Some(
-			ser::deserialize(
-				&mut &tx_bin[..],
-				ser::ProtocolVersion(1),
-				ser::DeserializationMode::default(),
-			)
-			.unwrap(),
-		))
+		// a partially written or damaged file is an error, not a crash
+		if !content.is_ascii() {
+			return Err(Error::StoredTx(format!("{}: not a hex encoding", uuid)));
+		}
+		let tx_bin =
+			util::from_hex(&content).map_err(|e| Error::StoredTx(format!("{}: {}", uuid, e)))?;
+		let tx = ser::deserialize(
+			&mut &tx_bin[..],
+			ser::ProtocolVersion(1),
+			ser::DeserializationMode::default(),
+		)
+		.map_err(|e| Error::StoredTx(format!("{}: {}", uuid, e)))?;
+		Ok(Some(tx))
 	}
 
 	fn batch<'a>(
